@@ -105,6 +105,8 @@ func C15(ctx *core.Ctx) {
 
 	c15ReopenableClose(ctx, r)
 	c15OpenCloseAgree(ctx, r)
+	c15NotificationsNotDiscarded(ctx, r)
+	c15OnlyEOFIsClean(ctx, r)
 	// ---- reader loop discovery ------------------------------------------------------
 	open := r.Fn("C15.R2", "(*fAdapterTransport).Open")
 	closeFn := r.Fn("C15.R4", "(*fAdapterTransport).close")
@@ -1154,4 +1156,99 @@ func nilTestField(cond ssa.Value, recv ssa.Value) (field string, neq bool) {
 		return "", false
 	}
 	return fieldNameOfAddr(fa), bo.Op == token.NEQ
+}
+
+// c15NotificationsNotDiscarded — C15.R9: every close notification reaches the
+// monitor. In the monitor runner the notification channel is received from at
+// exactly one place, and what is received there decides the branch (clean /
+// unclean): a second receive — a "drain" after a re-open — throws away the
+// notification of a connection that failed right after it was re-opened, so
+// OnClosedUncleanly is never called for it and the transport stays closed.
+func c15NotificationsNotDiscarded(ctx *core.Ctx, r *RT) {
+	ctx.Rule("C15.R9", "no close notification is discarded: the monitor runner receives from its notification channel at exactly one place and acts on the value", 1)
+	n := 0
+	for _, fn := range r.Fns {
+		if fn.Signature.Recv() == nil || !ssax.TypeNamed(fn.Signature.Recv().Type(), "", "monitorRunner") || fn.Name() != "run" {
+			continue
+		}
+		n++
+		var sites []string
+		unused := ""
+		for _, g := range localCone(fn, 3) {
+			for _, rs := range RecvSites(g) {
+				ch, isCh := rs.Chan.Type().Underlying().(*types.Chan)
+				if !isCh || !isErrorType(ch.Elem()) {
+					continue
+				}
+				sites = append(sites, r.IPos(rs.Instr))
+				// the received value must be used (compared with nil, handed on)
+				if v, isV := rs.Instr.(ssa.Value); isV {
+					if refs := v.Referrers(); refs == nil || len(*refs) == 0 {
+						unused = r.IPos(rs.Instr)
+					}
+				}
+				if rs.InSelect && rs.NonBlocking {
+					unused = r.IPos(rs.Instr) + " (non-blocking drain)"
+				}
+			}
+		}
+		ctx.Check(len(sites) == 1 && unused == "", "C15.R9", ssax.Name(fn)+" › one receive of the close notification, and its value is acted on", fnPos(r, fn), sprintf("%d receive site(s)", len(sites)),
+			sprintf("the runner receives close notifications at %d places %v (discarding: %s): a notification taken by the extra receive is never reported — when a re-opened connection fails before the runner is back at its main receive, OnClosedUncleanly is not called for that failure, no re-open is attempted and the transport stays closed", len(sites), sites, unused))
+	}
+	if n == 0 {
+		ctx.Unresolved("C15.R9", "monitor runner", "(*monitorRunner).run not found")
+	}
+}
+
+// c15OnlyEOFIsClean — C15.R10: "nil only for a clean close". In a client
+// reader loop the only read error that may end in the clean close (cause nil)
+// is END_OF_FILE — the peer hung up. Every TypeId() comparison of a transport
+// exception in the loop, and in the predicate helpers it calls, is therefore a
+// comparison with TRANSPORT_EXCEPTION_END_OF_FILE: a second kind classified as
+// "just a disconnect" (NOT_OPEN, TIMED_OUT …) is reported to the monitor as a
+// clean close, the runner terminates, and the transport is never re-opened.
+func c15OnlyEOFIsClean(ctx *core.Ctx, r *RT) {
+	ctx.Rule("C15.R10", "a read failure is never reported as a clean close: the reader loop classifies transport exceptions by TypeId() == END_OF_FILE only", 1)
+	eof := constInt(r, "TRANSPORT_EXCEPTION_END_OF_FILE")
+	isExec := func(c ssax.Call) bool { return c.Method != nil && c.Method.Name() == "Execute" }
+	n := 0
+	for _, fn := range r.Fns {
+		if !cycleReaches(fn, isExec) {
+			continue
+		}
+		for _, g := range localCone(fn, 1) {
+			if g != fn {
+				// predicate helpers only
+				res := g.Signature.Results()
+				if res.Len() != 1 {
+					continue
+				}
+				if b, ok := res.At(0).Type().Underlying().(*types.Basic); !ok || b.Kind() != types.Bool {
+					continue
+				}
+			}
+			ssax.Instrs(g, func(in ssa.Instruction) {
+				bo, ok := in.(*ssa.BinOp)
+				if !ok || (bo.Op != token.EQL && bo.Op != token.NEQ) {
+					return
+				}
+				var k ssa.Value
+				for _, pair := range [][2]ssa.Value{{bo.X, bo.Y}, {bo.Y, bo.X}} {
+					if c, isC := CallValue(pair[0]); isC && c.ShortName() == "TypeId" && c.Method != nil && ssax.TypeNamed(c.Common.Value.Type(), "thrift", "TTransportException") {
+						k = pair[1]
+					}
+				}
+				if k == nil {
+					return
+				}
+				n++
+				v, isK := ssax.ConstInt(k)
+				ctx.Check(isK && v == eof, "C15.R10", ssax.Name(fn)+sprintf(" › transport-exception test #%d is a test for END_OF_FILE", n), r.IPos(in), "TypeId() == TRANSPORT_EXCEPTION_END_OF_FILE",
+					"the reader loop (or its helper "+ssax.Name(g)+") also recognises another transport-exception kind ("+k.String()+"): a read that fails with it is closed like a peer hang-up — cause nil — so the monitor is told the close was clean, terminates, and the broken transport is never re-opened")
+			})
+		}
+	}
+	if n == 0 {
+		ctx.Unresolved("C15.R10", "reader loop", "no TypeId() test of a transport exception in a reader loop")
+	}
 }
